@@ -30,6 +30,7 @@ import (
 type Step struct {
 	Op      string `json:"op"`                // frame | ev | end | sync | flood | resume
 	Big     int    `json:"big,omitempty"`     // start(subscription): each event carries this many KiB of payload
+	Async   int    `json:"async,omitempty"`   // start(query|mutation|subscription): payload resolved with apifu.Go (1) or Go released by Batch (2), see async.go
 	F       string `json:"f,omitempty"`       // init-ok init-rej start startbad stop ping pong terminate unknown malformed close
 	ID      int    `json:"id,omitempty"`      // operation id index (0 = the empty id)
 	Kind    string `json:"kind,omitempty"`    // query mutation subscription subfail invalid
@@ -53,6 +54,9 @@ func (s Step) String() string {
 	case "frame":
 		switch s.F {
 		case "start":
+			if s.Async > 0 && s.Big == 0 {
+				return fmt.Sprintf("start(%d,%s,async%d)", s.ID, s.Kind, s.Async)
+			}
 			return fmt.Sprintf("start(%d,%s)", s.ID, s.Kind)
 		case "startbad", "stop":
 			return fmt.Sprintf("%s(%d)", s.F, s.ID)
@@ -234,6 +238,7 @@ func newWorld() *world {
 			}
 			return nil, fmt.Errorf("subscriptions are not supported using this protocol")
 		}})
+	addAsyncFields(cfg, w, record)
 	pad := strings.Repeat("x", 1024)
 	cfg.AddSubscription("big", &graphql.FieldDefinition{Type: graphql.StringType,
 		Arguments: map[string]*graphql.InputValueDefinition{"tag": {Type: graphql.IntType}, "kb": {Type: graphql.IntType}},
@@ -348,7 +353,11 @@ func frameBytes(proto string, st Step, gen int, ids *idCodec) []byte {
 	case "init-rej":
 		return []byte(`{"type":"connection_init","payload":{"reject":true}}`)
 	case "start":
-		q, _ := json.Marshal(docFor(st.Kind, gen, st.Variant, st.Big))
+		doc := docFor(st.Kind, gen, st.Variant, st.Big)
+		if st.Async > 0 && st.Big == 0 && (st.Kind == "query" || st.Kind == "mutation" || st.Kind == "subscription") {
+			doc = asyncDoc(st.Kind, gen, st.Async)
+		}
+		q, _ := json.Marshal(doc)
 		return []byte(`{` + idPart + `"type":"` + startT + `","payload":{"query":` + string(q) + `}}`)
 	case "startbad":
 		return []byte(`{` + idPart + `"type":"` + startT + `","payload":` + badPayloads[st.Variant%len(badPayloads)] + `}`)
@@ -367,6 +376,30 @@ func frameBytes(proto string, st Step, gen int, ids *idCodec) []byte {
 		return []byte(malformedSpellings[st.Variant%len(malformedSpellings)])
 	}
 	return nil
+}
+
+type genEv struct{ gen, ev int }
+
+// asyncPayload reads {"qa"|"ma"|"sa": {"v": n[, "w": n]}}; v and w (when both are there) must agree.
+func asyncPayload(data map[string]json.RawMessage) (genEv, bool) {
+	for _, k := range []string{"qa", "ma", "sa"} {
+		raw, ok := data[k]
+		if !ok {
+			continue
+		}
+		var o struct {
+			V *int `json:"v"`
+			W *int `json:"w"`
+		}
+		if json.Unmarshal(raw, &o) != nil || o.V == nil || (o.W != nil && *o.W != *o.V) {
+			return genEv{}, false
+		}
+		if k == "sa" {
+			return genEv{*o.V / 1000, *o.V % 1000}, true
+		}
+		return genEv{*o.V, 0}, true
+	}
+	return genEv{}, false
 }
 
 var digits = regexp.MustCompile(`(?:nope|subfail|bad|tag:)(\d+)`)
@@ -430,6 +463,8 @@ func parseServerFrame(p []byte, ids *idCodec) WFrame {
 				if n, err := strconv.Atoi(string(v)); err == nil {
 					f.Gen, f.Ev = n/1000, n%1000
 				}
+			} else if v, ok := asyncPayload(r.Data); ok && len(r.Errors) == 0 {
+				f.Gen, f.Ev = v.gen, v.ev
 			} else if v, ok := r.Data["big"]; ok && len(r.Errors) == 0 && len(v) > 2 {
 				if i := strings.IndexByte(string(v), ':'); i > 1 {
 					if n, err := strconv.Atoi(string(v[1:i])); err == nil {
